@@ -96,7 +96,7 @@ def run(pid, rep):
             seeds.append(d)
     refs = sorted(glob.glob(os.path.join(engine.VERIF, "refactors", f"{pid}-*.patch")))
     out = {"mutants": [], "refactors": [], "scratch": SCRATCH}
-    if not (muts or seeds or refs):
+    if not (muts or seeds or refs or os.environ.get("VERIF_SELFTEST_EXTRA")):
         out["note"] = "no mutants registered for this property"
         return out
     real_repo, real_facts = engine.REPO, engine.FACTS
@@ -105,6 +105,9 @@ def run(pid, rep):
         _with_scratch_env()
         cases = [(p, "mutant") for p in muts] + [(os.path.join(d, "patch.diff"), "seeded") for d in seeds] \
             + [(p, "refactor") for p in refs]
+        extra = os.environ.get("VERIF_SELFTEST_EXTRA")    # developer aid: try one more patch
+        if extra:
+            cases = [(extra, "seeded")]
         only = os.environ.get("VERIF_SELFTEST_ONLY")      # developer aid: substring filter
         if only:
             cases = [c for c in cases if only in c[0]]
